@@ -32,7 +32,7 @@ func ScriptFor(s *Script, o *Obligation, solver string) string {
 		b.WriteString(l)
 		b.WriteByte('\n')
 	}
-	b.WriteString("(assert (not " + o.Formula + "))\n(check-sat)\n")
+	b.WriteString("(assert (not " + dedupGoal(o.Formula) + "))\n(check-sat)\n")
 	if len(o.Inputs) > 0 && o.Expect == "unsat" {
 		b.WriteString("(get-value (" + strings.Join(o.Inputs, " ") + "))\n")
 	}
@@ -241,7 +241,7 @@ func relaxedScript(s *Script, o *Obligation) string {
 		b.WriteString(l)
 		b.WriteByte('\n')
 	}
-	b.WriteString("(assert (not " + o.Formula + "))\n(check-sat)\n")
+	b.WriteString("(assert (not " + dedupGoal(o.Formula) + "))\n(check-sat)\n")
 	if len(o.Inputs) > 0 {
 		b.WriteString("(get-value (" + strings.Join(o.Inputs, " ") + "))\n")
 	}
